@@ -1,9 +1,23 @@
 """C19 -- cached (pickled functions) and code-generated (shared libraries) models equal fresh compiles.
 
-E4 over programs x configurations: model families x option sets within distance 1 of {cache} (quick) and of
-{codegen} (thorough).  First transfer_model -> fresh Model, second -> CachedModel; both are reduced to a
-canonical comparable form (vf.core.mcache.canon) and compared.
+E4 over programs x configurations x (short) folder histories.
+
+* pair cases: model families x option sets within distance 1 of {cache} (quick) and of {codegen} (thorough).
+  First transfer_model -> fresh Model, second -> CachedModel.  Every family exists "bare" (as written) and
+  "full" (a ballast block adds one more member to EVERY variable category: state, algebraic, fixed and free
+  input, 2 constants, 2 parameters, String parameter and constant, all with parameter-dependent attributes),
+  so an index / order mix-up between two categories always meets two non-empty categories.
+* delay-duration cases: every sequence (length 1, 2; 3 in thorough) over the 8 duration kinds = subsets of
+  {constant, parameter, fixed input} the duration depends on (the second member of each category is used).
+* history cases: compile, ONE change (option / library_folders source / model-folder source), transfer_model
+  (recompiles and saves again into the folder that still holds the artefacts of the first compile),
+  transfer_model (loads).  Every call's result is compared with a compile of the current sources and options
+  in a separate clean folder.  {cache} histories for 3 models and {codegen} histories for 1 model in quick;
+  thorough: all 3 models in both modes and all sequences of <= 2 changes.
+
+Everything is reduced to a canonical comparable form (vf.core.mcache.canon) and compared.
 """
+import itertools
 import os
 import shutil
 
@@ -112,7 +126,101 @@ equation
   y = 4*x + c;
 end Affine;
 """,
+    # an array-valued member FIRST in every category (the metadata function has a row per element, the variable
+    # lists an entry per variable), then scalars with parameter-dependent attributes (more of them in +full)
+    "ArraysAll": """model ArraysAll
+  parameter Real pv[2] = {1, 2};
+  parameter Real p(max = 5) = 2;
+  parameter Real r(min = -p) = 1;
+  constant Real cv[2] = {3, 4};
+  input Real uv[2](each max = p);
+  input Real uf(fixed = true, min = -p);
+  Real v[2](start = {1, 2}, each min = p);
+  Real x(start = p, max = 3*p);
+  Real w[2];
+  Real a(min = -p);
+equation
+  der(v) = -p * v + uv;
+  der(x) = -r*x + uf;
+  w = cv + pv;
+  a = x + sum(w);
+end ArraysAll;
+""",
+    # the other extreme: every category but the states empty (no parameter, constant, input at all)
+    "Minimal": """model Minimal
+  Real x(start = 1);
+  Real y;
+equation
+  der(x) = -x;
+  y = delay(x, 1.5);
+end Minimal;
+""",
 }
+
+# One more member for every variable category, each with attributes that depend on parameters.  Affine in the
+# states (so that reduce_affine_expression stays applicable to Affine+full).
+BALLAST_DECL = """  parameter Real zp1(min = 0) = 1.5;
+  parameter Real zp2(max = 10*zp1) = 2*zp1;
+  parameter Real zp3 = 0.5;
+  constant Real zc1 = 0.25;
+  constant Real zc2(min = 0) = 3;
+  input Real zu1(fixed = true, min = -zp1);
+  input Real zu2(max = zp1 + zp2);
+  Real zx(start = zp1, max = 4*zp2, nominal = 2);
+  Real za(min = -zp2);
+  parameter String zs = "ballast";
+  constant String zcs = "zk";
+"""
+BALLAST_EQ = """  der(zx) = -zc1*zx + zu2;
+  za = zp1*zx + zu1 + zc2 + zp3;
+"""
+FULL = [m for m in MODELS if m != "Minimal"]
+
+# Delay durations: which categories the duration depends on (always the SECOND member of the category, so an
+# index that is off by a whole category or by one inside it lands on another symbol).
+DUR = {
+    "0": "0.75",
+    "C": "2*e",
+    "P": "q",
+    "U": "uf",
+    "CP": "e*q",
+    "CU": "e + uf",
+    "PU": "q*uf",
+    "CPU": "e*q + uf",
+}
+DEXPR = ["2*x + p", "x + c*u + r", "x*time + e"]
+
+
+def dd_text(kinds):
+    n = len(kinds)
+    decl = "".join("  Real y%d;\n" % i for i in range(n))
+    eqs = "".join("  y%d = delay(%s, %s);\n" % (i, DEXPR[i], DUR[k]) for i, k in enumerate(kinds))
+    return (
+        "model DD\n  parameter Real p = 0.5;\n  parameter Real q(min = 0) = 1.5;\n  parameter Real r = 2.5;\n  constant Real c = 0.25;\n"
+        "  constant Real e = 2;\n  input Real u;\n  input Real uf(fixed = true, min = 0);\n  Real x(start = p);\n"
+        + decl
+        + '  parameter String s = "abc";\n  constant String cs = "k";\nequation\n  der(x) = u - '
+        + " - ".join("y%d" % i for i in range(n))
+        + ";\n"
+        + eqs
+        + "end DD;\n"
+    )
+
+
+def model_text(key):
+    if key.startswith("DD:"):
+        return dd_text(key[3:].split(","))
+    if key.endswith("+full"):
+        t = MODELS[key[:-5]]
+        head, rest = t.split("equation\n", 1)
+        body, end = rest.rsplit("end ", 1)
+        return head + BALLAST_DECL + "equation\n" + body + BALLAST_EQ + "end " + end
+    return MODELS[key]
+
+
+def class_name(key):
+    return "DD" if key.startswith("DD:") else key.split("+")[0]
+
 
 SWITCHES = [
     "expand_vectors", "detect_aliases", "replace_constant_values", "replace_parameter_expressions",
@@ -120,13 +228,16 @@ SWITCHES = [
     "resolve_parameter_values", "factor_and_simplify_equations", "reduce_affine_expression",
 ]  # fmt: skip
 OTHER = [("unroll_loops", False), ("inline_functions", False), ("check_balanced", False), ("allow_derivative_aliases", False), ("mtime_check", False)]
+AFFINE = ("Affine", "DD")  # precondition of reduce_affine_expression: the model is affine in its states
+DD_PAIR_SWITCHES = ["replace_constant_values", "replace_parameter_values"]  # the ones that change what a duration depends on
 
 
-def option_sets(base, model):
+def option_sets(base, key):
+    model = class_name(key)
     sets = [dict(base)]
     for s in SWITCHES:
-        if s == "reduce_affine_expression" and model != "Affine":
-            continue  # precondition: affine model
+        if s == "reduce_affine_expression" and model not in AFFINE:
+            continue
         sets.append(dict(base, **{s: True}))
     for o, v in OTHER:
         sets.append(dict(base, **{o: v}))
@@ -138,26 +249,158 @@ def option_sets(base, model):
     return sets
 
 
-def cases(tier):
+# ---------------------------------------------------------------------------------------------------------
+# histories: one model folder + one library folder, sources in two variants each
+
+HIST = {
+    # every category, parameter-dependent attributes, initial equation, one delay in the library class
+    "Full": {
+        "main": """model Main
+  extends LibBase;
+  parameter Real p = 2;
+  parameter Real q(min = 0) = 3;
+  constant Real c = 4;
+  constant Real e = 0.5;
+  input Real uf(fixed = true);
+  input Real u;
+  Real x(start = %(start)s, max = p*q);
+  Real a;
+  parameter String s = "abc";
+  constant String cs = "k";
+initial equation
+  x = %(init)s;
+equation
+  der(x) = -p*x + c + u%(plus)s;
+  a = q*x + uf + y;
+end Main;
+""",
+        "mainv": {"A": {"start": "p", "init": "p", "plus": ""}, "B": {"start": "2*p", "init": "p + 1", "plus": " + 1"}},
+        "lib": """model LibBase
+  parameter Real k = 1;
+  constant Real lc = 2;
+  Real y(min = %(min)s);
+  Real yd;
+equation
+  y = %(coef)slc*k;
+  yd = delay(%(dexpr)s, %(ddur)s);
+end LibBase;
+""",
+        "libv": {"A": {"min": "-k", "coef": "", "dexpr": "y", "ddur": "lc*k"}, "B": {"min": "-2*k", "coef": "3*", "dexpr": "2*y", "ddur": "lc*k + 1"}},
+        "opt": {"replace_parameter_values": True},
+    },
+    # alias chains through the library class, arrays; the option change alters the variable lists themselves
+    "Alias": {
+        "main": """model Main
+  extends LibBase;
+  parameter Real p = 2;
+  constant Real c = 3;
+  input Real u;
+  Real v[2](each min = p);
+  Real a(max = 7);
+  Real nb(start = %(start)s);
+  Real g;
+equation
+  der(v) = -%(coef)sp * v;
+  g = u + c;
+  a = y;
+  nb = -a;
+end Main;
+""",
+        "mainv": {"A": {"start": "4", "coef": ""}, "B": {"start": "5", "coef": "2*"}},
+        "lib": """model LibBase
+  parameter Real k = 1;
+  Real y(min = %(min)s);
+  Real r;
+equation
+  der(r) = %(coef)sk;
+  y = r;
+end LibBase;
+""",
+        "libv": {"A": {"min": "-5", "coef": ""}, "B": {"min": "-6", "coef": "2*"}},
+        "opt": {"detect_aliases": True},
+    },
+    # delays in both folders, durations on a library parameter, a constant and a fixed input
+    "Delays": {
+        "main": """model Main
+  extends LibBase;
+  parameter Real p = 2;
+  constant Real c = 0.5;
+  input Real uf(fixed = true);
+  Real x(start = 1);
+  Real w;
+equation
+  der(x) = -p*x + w;
+  w = delay(x %(sign)s y, c*k + %(m)suf);
+end Main;
+""",
+        "mainv": {"A": {"sign": "+", "m": ""}, "B": {"sign": "-", "m": "2*"}},
+        "lib": """model LibBase
+  parameter Real k = 1;
+  constant Real lc = 2;
+  Real y;
+  Real yd;
+equation
+  y = lc*time;
+  yd = delay(%(dexpr)s, %(ddur)s);
+end LibBase;
+""",
+        "libv": {"A": {"dexpr": "y", "ddur": "lc*k"}, "B": {"dexpr": "2*y", "ddur": "lc*k + 1"}},
+        "opt": {"replace_constant_values": True},
+    },
+}
+CHANGES = ("opt", "lib", "main")
+T0 = 1_700_000_000
+QUICK_CODEGEN_HIST = ("Full",)
+
+
+def _hist_cases(tier):
     out = []
+    depth = 2 if tier == "thorough" else 1
+    seqs = [s for n in range(1, depth + 1) for s in itertools.product(CHANGES, repeat=n)]
+    for mode in ("codegen", "cache"):  # the expensive ones first
+        for model in HIST:
+            if mode == "codegen" and tier != "thorough" and model not in QUICK_CODEGEN_HIST:
+                continue
+            for s in seqs:
+                out.append(("hist", model, mode, list(s)))
+    return out
+
+
+def cases(tier):
+    out = _hist_cases(tier)
+    if tier == "thorough":
+        for name in list(MODELS) + [m + "+full" for m in FULL] + ["DD:" + k for k in DUR]:
+            for o in option_sets({"codegen": True}, name)[:6]:
+                out.append((name, o))
     for name in MODELS:
         for o in option_sets({"cache": True}, name):
             out.append((name, o))
+    for name in FULL:
+        for o in option_sets({"cache": True}, name + "+full"):
+            out.append((name + "+full", o))
+    for k in DUR:
+        for o in option_sets({"cache": True}, "DD:" + k):
+            out.append(("DD:" + k, o))
+    for k in itertools.product(DUR, repeat=2):
+        for o in [{"cache": True}] + [{"cache": True, s: True} for s in DD_PAIR_SWITCHES]:
+            out.append(("DD:" + ",".join(k), o))
     if tier == "thorough":
-        for name in MODELS:
-            for o in option_sets({"codegen": True}, name)[:6]:
-                out.append((name, o))
+        for k in itertools.product(DUR, repeat=3):
+            out.append(("DD:" + ",".join(k), {"cache": True}))
     return out
 
 
 def check(job):
+    if job[0] == "hist":
+        return check_history(job)
     from pymoca.backends.casadi import api
 
-    name, opts = job
+    key, opts = job
+    name = class_name(key)
     folder = common.new_scratch("c19")
-    mcache.write_files(folder, {name + ".mo": MODELS[name]})
-    case = {"model": name, "options": opts}
-    tag = "%s:%s" % (name, "+".join("%s=%s" % kv for kv in sorted(opts.items())))
+    mcache.write_files(folder, {name + ".mo": model_text(key)})
+    case = {"model": key, "options": opts}
+    tag = "%s:%s" % (key, "+".join("%s=%s" % kv for kv in sorted(opts.items())))
     cwd = os.getcwd()
     try:
         os.chdir(folder)  # codegen writes relative paths
@@ -179,12 +422,124 @@ def check(job):
             c2 = mcache.canon(m2)
         except Exception as e:
             return {"viol": [("cached-model-unusable:%s:%s" % (tag, type(e).__name__), "cached model cannot be evaluated: %r" % e, case)], "tag": tag}
-        d = mcache.diff(c1, c2)
-        viol = [("cached-differs:%s:%s" % (tag, what), "%s, %s: %s" % (name, opts, detail[:600]), case) for what, detail in d[:5]]
-        return {"viol": viol, "tag": tag, "nvars": sum(len(v) for v in c1["variables"].values())}
+        d = mcache.diff(c1, c2, broadcast_attrs=True)
+        viol = [("cached-differs:%s:%s" % (tag, what), "%s, %s: %s\n%s" % (key, opts, detail[:600], model_text(key)), case) for what, detail in d[:5]]
+        groups = {g: len(v) for g, v in c1["variables"].items()}
+        groups["string_parameters"] = len(c1["string_parameters"])
+        groups["string_constants"] = len(c1["string_constants"])
+        return {"viol": viol, "tag": tag, "groups": groups, "ndelay": len(c1["delay_states"])}
     finally:
         os.chdir(cwd)
         shutil.rmtree(folder, ignore_errors=True)
+
+
+def _sources(model, main, lib):
+    h = HIST[model]
+    return {"Main.mo": h["main"] % h["mainv"][main]}, {"Lib.mo": h["lib"] % h["libv"][lib]}
+
+
+def _snapshot(folder):
+    return {f: (os.stat(os.path.join(folder, f)).st_mtime_ns, os.stat(os.path.join(folder, f)).st_size) for f in os.listdir(folder)}
+
+
+def check_history(job):
+    """compile; then for every change in the sequence: apply it, transfer_model (must recompile), transfer_model
+    (must load).  Logical clock: every source edit gets the next tick as mtime, every file a transfer_model call
+    wrote gets the next tick after the call (in real time a write happens after all edits so far)."""
+    from pymoca.backends.casadi import api
+
+    _, model, mode, seq = job
+    tag = "hist:%s:%s:%s" % (model, mode, ">".join(seq))
+    case = {"history": {"model": model, "mode": mode, "changes": seq}}
+    root = common.new_scratch("c19h")
+    mdir, ldir = os.path.join(root, "model"), os.path.join(root, "lib")
+    state = {"main": "A", "lib": "A", "opt": False}
+    tick = [0]
+
+    def now():
+        tick[0] += 1
+        return T0 + tick[0]
+
+    def options(lib_folder, caching=True):
+        o = dict(HIST[model]["opt"]) if state["opt"] else {}
+        o["library_folders"] = [lib_folder]
+        if caching:
+            o[mode] = True
+        elif mode == "cache":
+            o["expand_mx"] = True  # caching implies it
+        return o
+
+    def fresh():
+        d = common.new_scratch("c19f")
+        try:
+            ms, ls = _sources(model, state["main"], state["lib"])
+            mcache.write_files(os.path.join(d, "model"), ms)
+            mcache.write_files(os.path.join(d, "lib"), ls)
+            return mcache.canon(api.transfer_model(os.path.join(d, "model"), "Main", options(os.path.join(d, "lib"), caching=False)))
+        finally:
+            shutil.rmtree(d, ignore_errors=True)
+
+    ms, ls = _sources(model, "A", "A")
+    mcache.write_files(mdir, ms, mtime=now())
+    mcache.write_files(ldir, ls, mtime=now())
+    viol, loads, compiles = [], 0, 0
+    cwd = os.getcwd()
+    try:
+        os.chdir(root)
+        # (what happens before the call, must the call load the cache)
+        steps = [(None, False)]
+        for ch in seq:
+            steps += [(ch, False), (None, True)]
+        for i, (ch, must_load) in enumerate(steps):
+            if ch == "opt":
+                state["opt"] = not state["opt"]
+            elif ch == "lib":
+                state["lib"] = "B" if state["lib"] == "A" else "A"
+                mcache.write_files(ldir, _sources(model, state["main"], state["lib"])[1], mtime=now())
+            elif ch == "main":
+                state["main"] = "B" if state["main"] == "A" else "A"
+                mcache.write_files(mdir, _sources(model, state["main"], state["lib"])[0], mtime=now())
+            where = "call %d (main=%s lib=%s opt=%s)" % (i + 1, state["main"], state["lib"], state["opt"])
+            before = _snapshot(mdir)
+            try:
+                m = api.transfer_model(mdir, "Main", options(ldir))
+            except Exception as e:
+                if i == 0:
+                    return {"viol": [], "skipped": "first compile raises %r" % e, "tag": tag}
+                viol.append(("transfer-raises:%s:%s" % (tag, common.exc_sig(e)), "%s raises %r" % (where, e), case))
+                break
+            after = _snapshot(mdir)
+            t = now()
+            for f, st in after.items():
+                if before.get(f) != st:
+                    os.utime(os.path.join(mdir, f), (t, t))
+            loaded = isinstance(m, api.CachedModel)
+            loads += loaded
+            compiles += not loaded
+            if must_load and not loaded:
+                viol.append(("cache-not-used:" + tag, "%s recompiled instead of loading the cache the previous call wrote" % where, case))
+                break
+            try:
+                exp = fresh()
+            except Exception as e:
+                return {"viol": [], "skipped": "clean-folder compile raises %r at %s" % (e, where), "tag": tag}
+            try:
+                got = mcache.canon(m)
+            except Exception as e:
+                viol.append(("model-unusable:%s:%s" % (tag, type(e).__name__), "%s: returned model cannot be evaluated: %r" % (where, e), case))
+                break
+            d = mcache.diff(exp, got, broadcast_attrs=True)
+            if d:
+                kind = "loaded" if loaded else "compiled"
+                viol += [
+                    ("%s-differs-from-clean-compile:%s:%s" % (kind, tag, what), "%s, %s model differs from a compile of the same sources and options in a clean folder: %s" % (where, kind, detail[:600]), case)
+                    for what, detail in d[:3]
+                ]
+                break
+        return {"viol": viol, "tag": tag, "loads": loads, "compiles": compiles, "hist": True}
+    finally:
+        os.chdir(cwd)
+        shutil.rmtree(root, ignore_errors=True)
 
 
 def run(ctx):
@@ -193,33 +548,68 @@ def run(ctx):
         res = pool.map(check, cs, chunksize=1)
     skipped = []
     done = 0
-    for (name, o), r in zip(cs, res):
+    texts = set()
+    hist = {"cache": 0, "codegen": 0, "loads_compared": 0, "compiles_compared": 0}
+    min_groups = {}
+    delays = 0
+    for job, r in zip(cs, res):
         if r.get("skipped"):
             skipped.append("%s: %s" % (r["tag"], r["skipped"]))
             continue
         done += 1
+        if r.get("hist"):
+            hist[job[2]] += 1
+            hist["loads_compared"] += r["loads"]
+            hist["compiles_compared"] += r["compiles"]
+        else:
+            texts.add(model_text(job[0]))
+            delays += r.get("ndelay", 0) > 0
+            if job[0].endswith("+full") or job[0].startswith("DD:"):
+                for g, n in r.get("groups", {}).items():
+                    if g != "der_states":
+                        min_groups[g] = min(n, min_groups.get(g, n))
         for sig, msg, case in r["viol"]:
             ctx.violation(sig, msg, case)
-    for k in (0, len(cs) // 2, len(cs) - 1):
-        ctx.sample({"model": cs[k][0], "options": cs[k][1]})
+    pairs = [c for c in cs if c[0] != "hist"]
+    for k in (0, len(pairs) // 2, len(pairs) - 1):
+        ctx.sample({"model": pairs[k][0], "options": pairs[k][1], "text": model_text(pairs[k][0])})
+    hs = [c for c in cs if c[0] == "hist"]
+    ctx.sample({"history": {"model": hs[0][1], "mode": hs[0][2], "changes": hs[0][3]}})
     ctx.coverage.update(
         {
             "evaluations": done,
             "distinct_nontrivial": done,
             "cases": len(cs),
+            "distinct_model_texts": len(texts),
+            "cases_with_delays": delays,
+            "histories": hist,
+            "smallest_category_in_full_and_delay_duration_families": min_groups,
             "skipped_because_fresh_compile_fails": skipped,
             "models": sorted(MODELS),
             "exhaustive": True,
-            "rule": "7 model families (parameter-dependent attributes, alias chains incl. negative, delay, delay in a loop, String/"
-            "Integer/Boolean, arrays, affine) x every option set within distance 1 of {cache} (10 simplification switches, 5 "
-            "other options, eliminable_variable_expression, two 2-option sets); thorough adds {codegen} x 6 sets per model. "
-            "Fresh Model vs CachedModel: names, order, shapes, Python types, every attribute at 2 parameter points, outputs, "
-            "delay states, alias relation, and the four functions at 2 points. A case counts when the cache was actually loaded.",
+            "rule": "9 model families (parameter-dependent attributes, alias chains incl. negative, delay, delay in a loop, several "
+            "delays, String/Integer/Boolean, arrays, affine, minimal) bare and (all but minimal) with a ballast block that adds a "
+            "member to every variable category, x every option set within distance 1 of {cache} (10 simplification switches, 5 "
+            "other options, eliminable_variable_expression, two 2-option sets); delay-duration family: every sequence of 1 "
+            "(x all option sets) or 2 (x {cache}, +replace_constant_values, +replace_parameter_values) delays (3 in thorough, "
+            "{cache}) over the 8 duration kinds = subsets of {constant, parameter, fixed input}; thorough adds {codegen} x 6 sets "
+            "per model. Fresh Model vs CachedModel: names, order, shapes, Python types, every attribute at 2 parameter points, "
+            "outputs, delay states, alias relation, exposed delay arguments and the four functions at 2 points. Histories: 3 "
+            "two-folder models x {option change, library source edit, model source edit} ({cache}; {codegen}: 1 model quick, 3 "
+            "thorough; thorough: all sequences of <= 2 changes): compile, change, transfer_model, transfer_model; every call's "
+            "result vs a compile of the current sources/options in a clean folder. A case counts when the cache was actually loaded.",
         }
     )
+    ctx.assumptions += [
+        "history cases: every edit has a strictly later mtime than anything written before it (logical clock); files written by a transfer_model call get the next tick",
+    ]
 
 
 def replay(case):
-    r = check((case["model"], case["options"]))
+    if "history" in case:
+        h = case["history"]
+        r = check_history(("hist", h["model"], h["mode"], h["changes"]))
+    else:
+        r = check((case["model"], case["options"]))
     print(r)
     return not r["viol"]
